@@ -214,7 +214,7 @@ func c06Race(c *vx.Ctx) {
 	for _, k := range keys {
 		k := k
 		desc := "data race in block processing (free-running Process on the block that trims six outputs with one goroutine per denomination, race detector):\n" + races[k]
-		if c.Confirm(desc, func() string {
+		if c.ConfirmSampling(desc, func() string {
 			_, r2, _, _, _ := c06RunRace(bin, c.Tier)
 			if _, ok := r2[k]; ok {
 				return "trim-race:race:" + k
